@@ -6,6 +6,7 @@
    removes; gen_moves IS that filter of the pseudo-legal list; the filter's attack test and the
    successor it is evaluated on are exact (AttackProofs, SuccProofs).  The final assembly
    `gen_exact` (GenExact.v) is pinned at the end of this file when present. *)
+From ChessV Require Import GenExact RulesNoDup.
 From Coq Require Import NArith ZArith List.
 From ChessV Require Import MoveGen Abs Rays GenFrame EpFrame AttackProofs SuccProofs PseudoBase PseudoProofs PseudoLink PseudoCastleSafe InvProofs2.
 From ChessV Require Rules.
@@ -40,8 +41,38 @@ Theorem C01_InvC_PInv : forall b c, InvC rook_t bishop_t b c -> PInv b c.
 Proof. exact (InvC_PInv rook_t bishop_t). Qed.
 End C01.
 
+
+(* ---- the assembled statement: C01 in full (GenExact.v) ---- *)
+Section C01_closed.
+Variable T : ztable.
+Variables rook_t bishop_t : N -> N -> N.
+Hypothesis rook_t_ref : forall x o, x < 64 -> rook_t x o = rook_ref x o.
+Hypothesis bishop_t_ref : forall x o, x < 64 -> bishop_t x o = bishop_ref x o.
+
+(* for every board satisfying the reachable-state invariant and either colour: the generator
+   hands back the caller's board and a duplicate-free list whose members are exactly the legal
+   moves of the rules *)
+Theorem C01_gen_exact : forall b c ms b', InvC rook_t bishop_t b c ->
+  gen_moves T rook_t bishop_t b c = Ok (ms, b') ->
+  b' = b /\ NoDup ms /\ forall m, In m ms <-> In m (Rules.legal_moves_for (abstract b) c).
+Proof. exact (gen_exact T rook_t bishop_t rook_t_ref bishop_t_ref). Qed.
+
+Theorem C01_gen_exact_turn : forall b ms b', Inv rook_t bishop_t b ->
+  gen_moves T rook_t bishop_t b (turn b) = Ok (ms, b') ->
+  b' = b /\ NoDup ms /\ forall m, In m ms <-> In m (Rules.legal_moves (abstract b)).
+Proof. exact (gen_exact_turn T rook_t bishop_t rook_t_ref bishop_t_ref). Qed.
+End C01_closed.
+Check @gen_total.
+Check @gen_perm.
+Check @gen_exact_magic.
+Check @legal_moves_NoDup.
+
 Print Assumptions C01_pseudo_exact.
 Print Assumptions C01_pseudo_total.
 Print Assumptions C01_filter_pseudo_incl.
 Print Assumptions C01_gen_moves_spec.
 Print Assumptions C01_InvC_PInv.
+Print Assumptions C01_gen_exact.
+Print Assumptions C01_gen_exact_turn.
+Print Assumptions gen_total.
+Print Assumptions gen_exact_magic.
